@@ -2093,9 +2093,6 @@ def real_runtime_cases(ck, rng, n, tables, max_wait):
     for case in cases:
         circuit = mk_circ(case['circ'])
         built.append((case, circuit, PassData(circuit)))
-    if os.environ.get('C11_DEBUG'):
-        with open('/tmp/C11-scratch/rtcases.pkl', 'wb') as f:
-            pickle.dump(cases, f)
     logf = tempfile.NamedTemporaryFile(prefix='c11log', suffix='.jsonl',
                                        delete=False)
     logf.close()
